@@ -8,6 +8,8 @@ import Mimic.Auth
 import Mimic.Sha1
 import Mimic.Extracted.Auth
 import Mimic.Script
+import Mimic.Packets
+import Mimic.Extracted.Charset
 /-! Line-protocol driver pieces: one `handle` per domain. Unknown input is answered `bad-op`, never defaulted. -/
 namespace Mimic.Drv
 
@@ -443,6 +445,35 @@ def conn (st : St) : List String → St × String
   | ["lose"] => connDo st .lose
   | _ => (st, "bad-op")
 
+/-! packets -/
+
+def codecOfCollation (c : Nat) : Option String :=
+  match Mimic.Extracted.Charset.collations.find? (fun x => x.1 == c) with
+  | none => none
+  | some (_, _, cs) => (Mimic.Extracted.Charset.charsets.find? (fun y => y.2.1 == cs)).map (fun y => y.2.2.1)
+
+/-- decoders the driver knows exactly: utf-8 (strict), latin-1 (total), ascii; no codec ⇒ raises -/
+def decFor (c : Nat) (b : List UInt8) : Option (List UInt8) :=
+  match codecOfCollation c with
+  | some "utf-8" => (utf8Dec b).map (fun _ => b)
+  | some "iso8859-1" => some b
+  | some "ascii" => if b.all (fun x => x.toNat < 128) then some b else none
+  | _ => none
+
+def showOptB : Option (List UInt8) → String
+  | none => "none"
+  | some b => hex b
+
+def pktOps (_st : St) : List String → String
+  | ["hs", caps, h] => match caps.toNat?, unhex h with
+      | some caps, some b =>
+        match Mimic.Packets.parseHandshakeResponse caps (fun c => (codecOfCollation c).isSome || Mimic.Extracted.Charset.collations.any (fun x => x.1 == c)) decFor b with
+        | .ssl c m co => s!"ssl {c} {m} {co}"
+        | .error => "error"
+        | .resp r => s!"resp caps={r.caps} max={r.maxPacket} cs={r.charset} user={hex r.username} auth={hex r.auth} db={showOptB r.db} plugin={showOptB r.plugin} attrs={";".intercalate (r.attrs.map (fun kv => hex kv.1 ++ ":" ++ hex kv.2))} zstd={r.zstd}"
+      | _, _ => "bad-op"
+  | _ => "bad-op"
+
 def handle (st : St) (line : String) : St × String :=
   match words line with
   | "ctl" :: rest => ctl st rest
@@ -453,6 +484,7 @@ def handle (st : St) (line : String) : St × String :=
   | "par" :: rest => (st, par st rest)
   | "auth" :: rest => auth st rest
   | "conn" :: rest => conn st rest
+  | "pkt" :: rest => (st, pktOps st rest)
   | _ => (st, "bad-op")
 
 end Mimic.Drv
